@@ -260,7 +260,7 @@ def record_traces(n, seed):
 def run(tier, seed):
     chk = Check(PID, tier, seed)
     full = tier == 'thorough'
-    cases, ucases = common.gen('ReshapeGen', 'ReshapeGenT' if full else 'ReshapeGen', outs=('OUT', 'OUT2'))
+    cases, ucases = common.gen('ReshapeGen', 'ReshapeGenT5' if full else 'ReshapeGen', outs=('OUT', 'OUT2'))
     chk.states += 1
     chk.transitions += 1
     profiles = ['ints', 'mixed', 'text', 'compound', 'equalreps']
